@@ -303,3 +303,81 @@ def no_write_after_merge(ctx, rule='C06-R5'):
            and e.seq > mc[0].seq]
     ctx.check(bool(met), rule, FG, f.node.name, f.loc(), 'groups are not metarized after the merge',
               instance='metarize(groups) follows the merge')
+
+
+def remerge_bookkeeping(ctx, rule='C06-R6'):
+    """Re-merging of mixture components that are closer than the minimum separation (layer.ncomp_from_gmm): merging
+    the component at sorted position i+1 into the one at position i relabels its hits, lets later merges see the alias
+    (chains of close components end up in one layer), and lowers the reported component count by exactly one - so that
+    the count returned equals the number of distinct ids, and no two remaining components are closer than allowed."""
+    fx = effects(ctx)
+    p = ctx.project
+    f = p.func(NCOMP, rule)
+    ctx.saw(f)
+    ex, s = fx.deep(NCOMP)
+    loops = [l for l in ex.loops.values() if l.kind == 'enumerate' and tag(T.peel(l.iter)) == 'call'
+             and T.peel(l.iter)[1] == ('g', 'numpy.diff')]
+    if len(loops) != 1:
+        raise AnalysisError(rule, f'{len(loops)} loops over the differences of the sorted component bases')
+    lp = loops[0]
+    idx = ('lv', lp.id, 'idx')
+    nxt = ('bin', '+', idx, C(1))
+    bases = None
+    it = T.peel(lp.iter)
+    if it[2] and tag(it[2][0]) == 'call' and it[2][0][1] == ('g', 'numpy.sort') and it[2][0][2]:
+        bases = it[2][0][2][0]
+    stores = [e for e in s.events if e.kind == 'store' and e.loops and e.loops[-1] == lp.id]
+    # which loop-carried arrays play the roles of "component id of every hit" and "component id at sorted position"?
+    order_var = None
+    for nm, (init, body) in lp.carried.items():
+        i0 = T.peel(init)
+        if tag(i0) == 'call' and i0[1] == ('g', 'numpy.argsort') and i0[2] and (bases is None or i0[2][0] == bases):
+            order_var = nm
+    order = ('lphi', lp.id, order_var) if order_var is not None else None
+    if order is None:
+        # not updated inside the loop: used as computed before it?
+        direct = [x for e in stores for x in T.walk(e.target) if tag(T.peel(x)) == 'call' and T.peel(x)[1] == ('g', 'numpy.argsort')
+                  and T.peel(x)[2] and (bases is None or T.peel(x)[2][0] == bases)]
+        order = direct[0] if direct else None
+    ctx.check(order is not None, rule, NCOMP, lp.node, f.loc(lp.node),
+              'the component order is not the argsort of the very base heights whose sorted differences are walked through',
+              instance='re-merge: position i of the sorted bases is component argsort(bases)[i]')
+    if order is None:
+        return
+    at_i, at_n = ('sub', order, idx), ('sub', order, nxt)
+    relabel = [e for e in stores if tag(e.target) == 'mask' and tag(e.target[1]) == 'lphi'
+               and e.target[2] in (('cmp', 'eq', e.target[1], at_n), ('cmp', 'eq', at_n, e.target[1]))]
+    ctx.check(len(relabel) == 1 and relabel[0].value == at_i, rule, NCOMP, (relabel[0].node if relabel else lp.node),
+              (relabel[0].loc() if relabel else f.loc(lp.node)),
+              'a merge does not give the hits of the component at sorted position i+1 the id of the component at position i '
+              + (f'(it stores {T.show(relabel[0].value, maxlen=60)} under {T.show(relabel[0].target[2], maxlen=80)})'
+                 if relabel else '(no such store in the loop)'),
+              instance='re-merge: hits of component i+1 take the id of component i')
+    alias = [e for e in stores if e.target == at_n]
+    ctx.check(len(alias) == 1 and alias[0].value == at_i and (not relabel or alias[0].guard == relabel[0].guard)
+              and (not relabel or alias[0].seq > relabel[0].seq), rule, NCOMP,
+              (alias[0].node if alias else lp.node), (alias[0].loc() if alias else f.loc(lp.node)),
+              'after a merge the id at sorted position i+1 is not replaced by the id at position i (under the same condition, '
+              'after the relabelling): the next merge of a chain of close components would relabel hits that no longer carry '
+              'that id, and the components stay apart',
+              instance='re-merge: the alias is propagated for chains of close components')
+    # the count goes down by exactly one per merge
+    guard = relabel[0].guard if relabel else None
+    counts = []
+    for nm, (init, body) in lp.carried.items():
+        me = ('lphi', lp.id, nm)
+        alts = body[1] if tag(body) == 'phi' else ((T.TRUE, body),)
+        dec = [(g, v) for g, v in alts if v == ('bin', '-', me, C(1)) or v == ('bin', '+', me, C(-1))]
+        keep = [(g, v) for g, v in alts if v == me]
+        if dec and len(dec) + len(keep) == len(alts):
+            counts.append((nm, dec, keep))
+    ok = False
+    if len(counts) == 1 and guard is not None:
+        nm, dec, keep = counts[0]
+        own = [l for l in guard_literals(guard) if T.contains(l, lambda x: x == ('lv', lp.id, 'elem'))]
+        ok = len(dec) == 1 and all(l in guard_literals(dec[0][0]) or dec[0][0] == l for l in own) and \
+            T.contains(s.ret, lambda x: tag(x) == 'loopres' and x[1] == lp.id and x[2] == nm)
+    ctx.check(ok, rule, NCOMP, lp.node, f.loc(lp.node),
+              'the number of components handed back is not lowered by exactly one for every merge (and only then): the '
+              'count no longer equals the number of distinct component ids - a group reports k components and owns another '
+              'number of layers', instance='re-merge: component count decremented once per merge')
